@@ -1643,9 +1643,10 @@ class BandAggregateSegment(DataSegment):
                 numpy.arange(self.bands)[norm_subscript[self.band_dimension]]):
             child_subscript = norm_subscript[:self.band_dimension] + \
                 norm_subscript[self.band_dimension+1:]
-            band_subscript = norm_subscript[:self.band_dimension] + \
+            # NB: the band is extracted relative to the data, not relative to the full raw shape
+            band_subscript = tuple(slice(0, entry, 1) for entry in data.shape[:self.band_dimension]) + \
                 (out_index, ) + \
-                norm_subscript[self.band_dimension+1:]
+                tuple(slice(0, entry, 1) for entry in data.shape[self.band_dimension+1:])
             self.children[index].write(
                 data[band_subscript], subscript=child_subscript, **kwargs)
 
